@@ -667,6 +667,7 @@ func c04Run(c *Case) {
 	switch {
 	case c.Idx == 0:
 		c04Rejected(c)
+		round8Hand(c, "C04")
 	case c.Idx <= nc && c.Idx%4 == 0:
 		c04Shared(c)
 	case c.Idx <= nc:
